@@ -25,18 +25,20 @@ def systemRequest (kv : KV) : Option String := do
   let ops ← (kv.strs "ops").mapM parseSop?
   pure (joinWith " " ((SystemGen.run natLabels N (St.new natLabels N (parseScript kv)) ops).map showSout))
 
-/-- `X::new()`: the state is filled from one fetch of `size_of::<State>()` bytes; the words of the
-state are the tagged words of fetch 0 in order (a failing fetch panics) -/
+/-- `X::new()`: the model is `SystemGen.newState`; the state is printed as the harness reads it back through serde -/
 def newgenRequest (kv : KV) : Option String := do
   let gen ← kv.get? "gen"
-  let ok := (parseScript kv).headD true
-  if !ok then pure "panic" else
-  let w (j : Nat) : Nat := tag 0 j
-  let w64 (j : Nat) : Nat := w (2 * j) + 2 ^ 32 * w (2 * j + 1)
-  match gen with
-  | "xoshiro" => pure ("st:" ++ joinWith "," ((List.range 4).map (toString ∘ w64)))
-  | "splitmix" | "wyrand" => pure ("st:" ++ toString (w64 0))
-  | "chacha8" | "chacha12" | "chacha20" => pure ("st:" ++ joinWith "," ((List.range 12).map (toString ∘ w)) ++ " idx:oob")
-  | _ => none
+  let words ← (match gen with
+    | "xoshiro" => some 8 | "splitmix" | "wyrand" => some 2
+    | "chacha8" | "chacha12" | "chacha20" => some 12 | _ => none)
+  match SystemGen.newState natLabels words (parseScript kv) with
+  | none => pure "panic"
+  | some ws =>
+    let w (j : Nat) : Nat := ws.getD j 0
+    let w64 (j : Nat) : Nat := w (2 * j) + 2 ^ 32 * w (2 * j + 1)
+    match gen with
+    | "xoshiro" => pure ("st:" ++ joinWith "," ((List.range 4).map (toString ∘ w64)))
+    | "splitmix" | "wyrand" => pure ("st:" ++ toString (w64 0))
+    | _ => pure ("st:" ++ joinWith "," ((List.range 12).map (toString ∘ w)) ++ " idx:oob")
 
 end Urandom.Driver
